@@ -74,6 +74,7 @@ class PoolWorld(WorldBase):
             'p_early': ch.choice([0.0, 0.2, 0.5, 0.8]),
             'p_fault': ch.choice([0.0, 0.15, 0.3]),
             'mode': 'baton' if profile.endswith('T') else 'inline',
+            'batch_only': profile == 'C19B',
         }
 
     @staticmethod
@@ -125,6 +126,13 @@ class PoolWorld(WorldBase):
     def gen_op(self, ch):
         if self.config.get('mode') == 'baton':
             return self.gen_thread_pool(ch)
+        if self.profile == 'C19B':
+            op = self.gen_batch_pool(ch)
+            op['op'] = 'batch_direct'
+            op['use_pool'] = ch.chance(0.5)
+            if op['export'] == 'items_partial':
+                op['export'] = 'items'
+            return op
         what = ch.weighted([('iter_pool', 6), ('batch_pool', 4), ('zip_pool', 1.5)])
         return getattr(self, 'gen_' + what)(ch)
 
@@ -519,6 +527,160 @@ class PoolWorld(WorldBase):
         if ex == 'to_frame_axis1':
             return b.to_frame(axis=1)
         return b.to_bus()
+
+    # ------------------------------------------------------------------ C19.batch: Batch vs per-label application
+    def _direct(self, op):
+        '''{label: result of applying the chained operation directly to that label's Frame}; labels whose
+        application raises the silenced exception are absent, any other failure propagates.'''
+        sf = self.sf
+        fail_label = None
+        if op.get('fail_at') is not None:
+            fail_label = op['frames'][op['fail_at'] % len(op['frames'])]['name']
+        out = []
+        for spec in op['frames']:
+            c = build_frame(sf, spec)
+            label = spec['name']
+            dropped = False
+            for step in op['chain']:
+                try:
+                    if step == 'apply':
+                        c = pf.frame_fn(c, fail_on=fail_label)
+                    elif step == 'apply_items':
+                        c = pf.frame_fn_items(label, c, fail_on=fail_label)
+                    elif step == 'apply_series':
+                        c = pf.frame_to_series(c, fail_on=fail_label)
+                    elif step == 'apply_element':
+                        c = pf.frame_to_element(c, fail_on=fail_label)
+                    elif step == 'apply_except':
+                        c = pf.frame_fn(c, fail_on=fail_label)
+                    elif step == 'apply_items_except':
+                        c = pf.frame_fn_items(label, c, fail_on=fail_label)
+                    elif step == 'iloc':
+                        c = c.iloc[:2]
+                    elif step == 'loc_cols':
+                        c = c.loc[:, ['A']]
+                    elif step == 'mul':
+                        c = c * 2
+                    elif step == 'sum':
+                        c = c.sum()
+                    elif step == 'min':
+                        c = c.min()
+                    elif step == 'getitem':
+                        c = c['A']
+                    elif step == 'head':
+                        c = c.head(1)
+                    elif step == 'rename':
+                        pass  # Batch.rename names the Batch, not the frames
+                    elif step == 'sort_index':
+                        c = c.sort_index(ascending=False)
+                    elif step == 'transpose':
+                        c = c.transpose()
+                    elif step == 'cumsum':
+                        c = c.cumsum()
+                    elif step == 'drop':
+                        c = c.drop.iloc[0]
+                    elif step == 'neg':
+                        c = -c
+                    elif step == 'loc_rows':
+                        c = c.iloc[[0]]
+                    elif step == 'tail':
+                        c = c.tail(1)
+                except pf.TaskFailure:
+                    if step in ('apply_except', 'apply_items_except'):
+                        dropped = True
+                        break
+                    raise
+                if not isinstance(c, (sf.Frame, sf.Series)):
+                    c = sf.Series.from_element(c, index=(None,))  # an element is presented as a one-cell Series
+            if not dropped:
+                out.append((label, c))
+        return out
+
+    def do_batch_direct(self, op, dec_):
+        '''C19.batch: dict(batch.op.items()) == {label: op(frame)} and the exporter concatenates exactly those.'''
+        sf = self.sf
+        if 'apply_except' in op['chain'] or 'apply_items_except' in op['chain']:
+            op = dict(op)
+            op['chunk'] = 1
+        workers = bool(op.get('use_pool'))
+        site = 'Batch.' + op['export']
+        cls = ('pool' if workers else 'sequential') + ',' + '>'.join(sorted(set(op['chain'])))[:0] + ('threads' if op.get('threads') else 'processes') if workers else 'sequential'
+        op2 = dict(op)
+        op2.pop('crash_at', None)
+        op2.pop('unpicklable', None)
+        ref = call(self._direct, op2)
+        op_items = dict(op2)
+        op_items['export'] = 'items'
+        sim = self._sim(dec_, op2, crash=False)
+        try:
+            got = call(self._batch_run, op_items, workers)
+            exp = call(self._batch_run, op2, workers) if op2['export'] != 'items' else got
+        finally:
+            self._done(sim)
+        for x in (got, exp):
+            if isinstance(x[1], (HarnessError, Violation)):
+                raise x[1]
+        if ref[0] == 'raise':
+            if got[0] == 'ok':
+                raise Violation('C19.batch', site, cls, f'applying the operation to the frames raises {type(ref[1]).__name__} but the Batch returned results')
+            return 'both-raise'
+        if got[0] == 'raise':
+            raise Violation('C19.batch', site, cls, f'Batch raised {type(got[1]).__name__}: {got[1]} where per-frame application succeeds')
+        a = [(norm(k), snap(v)) for k, v in ref[1]]
+        b = [(norm(k), snap(v)) for k, v in got[1]]
+        if a != b:
+            raise Violation('C19.batch', site, cls, 'Batch items differ from per-frame application: ' + first_diff(a, b))
+        self.stats['batch:direct-equal'] += 1
+        # exporters: exactly those results, concatenated
+        ex = op2['export']
+        if ex in ('to_bus',) and exp[0] == 'ok':
+            c = [(norm(k), snap(v)) for k, v in exp[1].items()]
+            if c != a:
+                raise Violation('C19.batch', 'Batch.to_bus', cls, 'to_bus holds different frames: ' + first_diff(a, c))
+        if ex in ('to_frame', 'to_frame_axis1') and ref[1]:
+            axis = 0 if ex == 'to_frame' else 1
+            res = ref[1]
+            all_series = all(isinstance(v, sf.Series) for _, v in res)
+            all_frames = all(isinstance(v, sf.Frame) for _, v in res)
+            want = None
+            if any(0 in v.shape for _, v in res):
+                all_series = all_frames = False  # concatenation of zero-sized results is C11's territory
+            if all_series:
+                idx0 = snap(res[0][1])['index']['labels']
+                if all(snap(v)['index']['labels'] == idx0 for _, v in res) and len(set(map(repr, idx0))) == len(idx0):
+                    labels = [norm(k) for k, _ in res]
+                    cells = [snap(v)['cells'] for _, v in res]
+                    want = {'outer': labels, 'inner': idx0, 'cells': cells if axis == 0 else [list(r) for r in zip(*cells)], 'axis': axis}
+            elif all_frames:
+                col0 = snap(res[0][1])['columns']['labels'] if axis == 0 else snap(res[0][1])['index']['labels']
+                same = all((snap(v)['columns']['labels'] if axis == 0 else snap(v)['index']['labels']) == col0 for _, v in res)
+                if same:
+                    outer = []
+                    rows = []
+                    for k, v in res:
+                        sv = snap(v)
+                        own = sv['index']['labels'] if axis == 0 else sv['columns']['labels']
+                        nr = len(sv['index']['labels'])
+                        body = [[c[1][i] for c in sv['cols']] for i in range(nr)]
+                        if axis == 1:
+                            body = [list(r) for r in zip(*body)] if body else []
+                        for lab, row in zip(own, body):
+                            outer.append((norm(k), lab) if not isinstance(lab, tuple) else (norm(k),) + lab)
+                            rows.append(row)
+                    want = {'outer': outer, 'inner': col0, 'cells': rows if axis == 0 else [list(r) for r in zip(*rows)], 'axis': axis}
+            if want is not None:
+                if exp[0] == 'raise':
+                    raise Violation('C19.batch', 'Batch.' + ex, cls, f'exporter raised {type(exp[1]).__name__}: {exp[1]}')
+                sv = snap(exp[1])
+                nr = len(sv['index']['labels'])
+                body = [[c[1][i] for c in sv['cols']] for i in range(nr)]
+                gi, gc = sv['index']['labels'], sv['columns']['labels']
+                ei, ec = (want['outer'], want['inner']) if axis == 0 else (want['inner'], want['outer'])
+                if gi != ei or gc != ec or body != want['cells']:
+                    raise Violation('C19.batch', 'Batch.' + ex, cls, 'exported frame is not the concatenation of the per-label results: '
+                                    + first_diff({'index': ei, 'columns': ec, 'cells': want['cells']}, {'index': gi, 'columns': gc, 'cells': body}))
+                self.stats['batch:export-checked'] += 1
+        return 'equal'
 
     def do_batch_pool(self, op, dec_):
         if 'apply_except' in op['chain'] or 'apply_items_except' in op['chain']:
